@@ -39,6 +39,8 @@ type TaintCfg struct {
 	// CleanCalls: library calls made inside a named repo function whose results
 	// are clean, keyed "caller|callee" (sanitiser at the point of decryption).
 	CleanCalls map[string]string
+	// CleanCallees: library callee name prefixes whose results are trusted (local services), with reason.
+	CleanCallees map[string]string
 	// TaintedTypes: named types all of whose fields become tainted at a source (decoded gopacket layers).
 	Log func(string)
 }
@@ -59,6 +61,7 @@ type TaintState struct {
 	Sources []string
 	fvAlias map[*ssa.FreeVar]ssa.Value
 	cds     map[*ssa.Function]*CtrlDep
+	rdefs   map[string]func(ssa.Instruction) []ssa.Value
 }
 
 func (s *TaintState) Reachable() []*ssa.Function { return s.order }
@@ -331,7 +334,12 @@ func (s *TaintState) flowFunc(f *ssa.Function, add func(*ssa.Function), srcSeen 
 			case *ssa.UnOp:
 				switch x.Op {
 				case token.MUL:
-					t := s.loadTaint(x.X)
+					t, done := s.localFieldLoad(f, x)
+					if done {
+						s.set(x, t)
+						continue
+					}
+					t = s.loadTaint(x.X)
 					if ptr := s.Of(x.X); ptr&TC != 0 {
 						// dereference of a pointer that itself came from tainted data
 						t |= TC | TL
@@ -376,7 +384,12 @@ func (s *TaintState) flowFunc(f *ssa.Function, add func(*ssa.Function), srcSeen 
 					s.set(x, TC|TL)
 				}
 			case *ssa.Lookup:
-				if s.Of(x.X) != 0 || s.Of(x.Index) != 0 {
+				// a peer-chosen key selects among values this program stored: the
+				// result is tainted only if the container's values are
+				if s.Of(x.X)&TC != 0 {
+					s.set(x, TC)
+				}
+				if _, isStr := x.X.Type().Underlying().(*types.Basic); isStr && s.Of(x.Index) != 0 {
 					s.set(x, TC)
 				}
 			case *ssa.Slice:
@@ -415,7 +428,7 @@ func (s *TaintState) flowFunc(f *ssa.Function, add func(*ssa.Function), srcSeen 
 					}
 				}
 			case *ssa.MapUpdate:
-				if s.Of(x.Value) != 0 || s.Of(x.Key) != 0 {
+				if s.Of(x.Value) != 0 {
 					s.set(x.Map, TC)
 				}
 			case *ssa.MakeClosure:
@@ -634,10 +647,12 @@ func (s *TaintState) flowCall(f *ssa.Function, call ssa.CallInstruction, add fun
 	// ---- builtins ---------------------------------------------------------
 	if b, ok := c.Value.(*ssa.Builtin); ok {
 		switch b.Name() {
-		case "len", "cap":
+		case "len":
 			if s.Of(c.Args[0])&TL != 0 {
 				s.setResult(call, 0, TC)
 			}
+		case "cap":
+			// re-slicing from index 0 keeps the capacity: not peer-chosen
 		case "copy":
 			if s.Of(c.Args[1])&TC != 0 {
 				s.markSliceContent(c.Args[0], TC)
@@ -707,6 +722,11 @@ func (s *TaintState) flowCall(f *ssa.Function, call ssa.CallInstruction, add fun
 	// ---- library default ----------------------------------------------------
 	if _, clean := s.cfg.CleanCalls[f.String()+"|"+name]; clean {
 		return
+	}
+	for pfx := range s.cfg.CleanCallees {
+		if strings.HasPrefix(name, pfx) {
+			return
+		}
 	}
 	t := s.anyArgTaint(c)
 	if t == 0 {
@@ -850,4 +870,99 @@ func (s *TaintState) returnsDiffer(f *ssa.Function) bool {
 		}
 	}
 	return n > 1
+}
+
+// localRoot splits an address into (local alloc, field path) when it is a
+// field chain rooted at a local variable of struct type.
+func localRoot(addr ssa.Value) (*ssa.Alloc, string) {
+	var fields []string
+	v := addr
+	for i := 0; i < 16; i++ {
+		switch x := v.(type) {
+		case *ssa.FieldAddr:
+			fields = append([]string{fieldName(x.X.Type(), x.Field)}, fields...)
+			v = x.X
+		case *ssa.Alloc:
+			return x, strings.Join(fields, ".")
+		default:
+			return nil, ""
+		}
+	}
+	return nil, ""
+}
+
+// localFieldLoad: flow-sensitive taint of a load from a field of a local struct
+// variable (or the variable as a whole): the join over the stores that reach
+// the load. Falls back (done=false) when the variable is captured by a closure.
+func (s *TaintState) localFieldLoad(f *ssa.Function, ld *ssa.UnOp) (Taint, bool) {
+	a, path := localRoot(ld.X)
+	if a == nil {
+		return 0, false
+	}
+	if _, isStruct := a.Type().Underlying().(*types.Pointer).Elem().Underlying().(*types.Struct); !isStruct {
+		return 0, false
+	}
+	for _, ref := range Referrers(a) {
+		if _, ok := ref.(*ssa.MakeClosure); ok {
+			return 0, false
+		}
+	}
+	if s.rdefs == nil {
+		s.rdefs = map[string]func(ssa.Instruction) []ssa.Value{}
+	}
+	key := allocID(a) + "|" + path
+	q := s.rdefs[key]
+	if q == nil {
+		related := func(p2 string) (exact, parent, child bool) {
+			if p2 == path {
+				return true, false, false
+			}
+			if p2 == "" || strings.HasPrefix(path, p2+".") {
+				return false, true, false
+			}
+			if path == "" || strings.HasPrefix(p2, path+".") {
+				return false, false, true
+			}
+			return false, false, false
+		}
+		q = ReachingDefs(f, func(in ssa.Instruction) (DefKind, ssa.Value) {
+			switch x := in.(type) {
+			case *ssa.Store:
+				a2, p2 := localRoot(x.Addr)
+				if a2 != a {
+					return DefNone, nil
+				}
+				ex, par, ch := related(p2)
+				switch {
+				case ex || par:
+					return DefStrong, x.Val
+				case ch:
+					return DefWeak, x.Val
+				}
+			case ssa.CallInstruction:
+				for _, arg := range x.Common().Args {
+					a2, p2 := localRoot(Strip(arg))
+					if a2 != a {
+						continue
+					}
+					if ex, par, ch := related(p2); ex || par || ch {
+						return DefUnknown, nil
+					}
+				}
+			}
+			return DefNone, nil
+		})
+		s.rdefs[key] = q
+	}
+	var t Taint
+	for _, v := range q(ld) {
+		switch v {
+		case Zero:
+		case Unknown:
+			t |= s.loadTaint(ld.X)
+		default:
+			t |= s.Of(v)
+		}
+	}
+	return t, true
 }
